@@ -1643,6 +1643,17 @@ def r68_first_after_none(ctx):
     bad, unsure, n_none = [], [], 0
     inb = re.compile(r"^%s\._get_is_in_bounds\((.*)\)$" % re.escape(
         f.self_name))
+    # constructor invariant (from the reachable post-states of __init__, the
+    # same the R18 clauses use): a recurrence without a duration has exactly
+    # one member.  A probe inside the bounds of such a series is that member
+    # and nothing follows it.
+    try:
+        from .recurrence import rec_states, NONE as _NONEV
+        post_states = rec_states(ctx)[0]
+        no_dur_single = bool(post_states) and all(
+            st[1] == "one" for st in post_states if st[5] == _NONEV)
+    except (AnalysisError, KeyError, IndexError):
+        no_dur_single = False
     for p in paths:
         if p.outcome != "return" or not (
                 isinstance(p.value, ast.Constant) and p.value.value is None):
@@ -1663,6 +1674,9 @@ def r68_first_after_none(ctx):
                     tp, f.self_name):
                 before_start = val
         if probe_out and before_start is False:
+            reason = True
+        if probe_out is False and no_dur_single and p.decisions.get(
+                "%s._duration is None" % f.self_name) is True:
             reason = True
         if reason:
             continue
@@ -2701,3 +2715,70 @@ def r79_month_day_ranges(ctx):
 
 
 RULES["R79"] = r79_month_day_ranges
+
+
+# ------------------------------------------------------------------- R80
+# (floor / ceil / int() take the whole part of a quotient - counting whole
+# intervals, splitting a value into units - and are not listed: they are part
+# of exact arithmetic)
+LOSSY_CALLS = {"round", "isclose", "quantize", "nextafter"}
+
+
+def r80_no_rounding(ctx):
+    """The library computes with the numbers it is given: whole numbers stay
+    whole by integer arithmetic, fractions are carried as they are, and the
+    only place a value loses digits is the six-decimal text of a dump.
+    Nothing in the value classes, the parsers or the dumpers rounds a value,
+    compares with a tolerance or snaps to a grid: a `round(x, 6)` to 'drop
+    float noise' changes the instant or the length (and can produce the 60th
+    second)."""
+    rep = ctx.rep
+    rule = "R80.no-rounding"
+    P = ("C01", "C02", "C04", "C06", "C08", "C10", "C11", "C13", "C14",
+         "C17", "C18", "C12")
+    rep.need_anchor(rule, "functions of the library")
+    n = 0
+    for f in ctx.model.all_functions():
+        if f.module.name not in ("data", "dumpers", "parsers", "timezone",
+                                 "datetimeoper"):
+            continue
+        n += 1
+        for c in walk_no_nested(f.node):
+            if not isinstance(c, ast.Call):
+                continue
+            name = U(c.func).split(".")[-1]
+            if name not in LOSSY_CALLS:
+                continue
+            if name in ("isclose", "nextafter") and not (
+                            isinstance(c.func, ast.Name) or
+                            U(c.func).startswith("math.")):
+                continue
+            rep.violation(
+                rule, ctx.fkey(f, c, "lossy:%s" % name), f.loc(c),
+                "%s passes a value through `%s`: values are carried exactly "
+                "(integers by integer arithmetic, fractions as given) and "
+                "lose digits only in the six-decimal text of a dump; "
+                "rounding or a tolerance here changes the instant / the "
+                "length for inputs finer than the grid, or makes unequal "
+                "values equal while their hashes differ" % (
+                    f.qual, U(c)[:60]), P)
+        # a tolerance written as a comparison with a tiny float literal
+        for c in walk_no_nested(f.node):
+            if isinstance(c, ast.Compare):
+                for x in [c.left] + list(c.comparators):
+                    if isinstance(x, ast.Constant) and isinstance(
+                            x.value, float) and 0 < abs(x.value) < 1e-3:
+                        rep.violation(
+                            rule, ctx.fkey(f, c, "tolerance"), f.loc(c),
+                            "%s compares with the tolerance %r in `%s`: a "
+                            "value within the tolerance is treated as "
+                            "another value (a genuine fraction of that "
+                            "size is dropped)" % (f.qual, x.value,
+                                                  U(c)[:60]), P)
+    rep.anchor(rule, "functions of the library", n)
+    rep.ok(rule, "package:no-rounding", "-",
+           "%d functions: no round / isclose / quantize call and no "
+           "comparison with a tolerance literal" % n, P)
+
+
+RULES["R80"] = r80_no_rounding
